@@ -52,7 +52,7 @@ RULE = ("bounded-exhaustive: every canonical program (Deferreds named in order o
         "operation list and counted as non-trivial only if at least one callback really returned a "
         "Deferred (waited on or result taken) in the model run.")
 ASSUMPTIONS = [
-    "trusted base: the ~90-line recursive Model in this module is the oracle of the documented chaining rules",
+    "trusted base: the ~110-line recursive Model in this module is the oracle of the documented chaining rules",
     "callbacks do not themselves fire, pause or add callbacks to Deferreds (re-entrant mutation is out of scope)",
     "returns of a Deferred that is its own, already waits on the current one, or is on the interpreter's stack are replaced by plain values (documented misuse / undocumented corner)",
     "remaining callbacks are read from Deferred.callbacks (ids of user callbacks only; continuation entries are ignored)",
@@ -564,8 +564,6 @@ def _begin_logging():
 
 
 def run(ctx):
-    import sys
-
     from twisted.internet import defer
 
     _begin_logging()
@@ -573,12 +571,11 @@ def run(ctx):
     if defer.Deferred.debug:
         ctx.inconclusive("Deferred.debug is on; the check expects the default (off)")
         return
-    sys.setrecursionlimit(max(sys.getrecursionlimit(), 1000))
     # (nd, nops, alphabet name) - complete spaces per tier
     if ctx.quick:
-        spaces = [(2, 7, "S"), (3, 5, "S"), (4, 5, "S"), (2, 4, "F"), (3, 4, "F")]
+        spaces = [(2, 6, "S"), (3, 5, "S"), (4, 5, "S"), (2, 4, "F"), (3, 4, "F")]
     else:
-        spaces = [(2, 8, "S"), (3, 6, "S"), (4, 6, "S"), (2, 5, "F"), (3, 5, "F"), (4, 4, "F")]
+        spaces = [(2, 8, "S"), (3, 6, "S"), (4, 6, "S"), (2, 5, "F"), (3, 4, "F"), (4, 4, "F")]
     if float(os.environ.get("VERIF_SCALE", "1")) < 1:  # smoke runs only
         spaces = [(2, 4, "S"), (2, 3, "F")]
         ctx.exhaustive = False
